@@ -273,13 +273,21 @@ DIGIT_CRITERIA = tuple(op + o for op in ('<', '<=', '>', '>=')
                        for o in ('3', '5', '0', '-1', '4.5'))
 
 
+# words that a lenient number or date parser takes for values
+WORD_ALPHA = ('may', 'Sat', 'inf', 5)
+WORD_CRITERIA = tuple(op + o for op in OPS
+                      for o in ('may', 'sat', 'inf', 'nan', 'MON')) + (
+    'may', 'SAT', 'inf', 'nan')
+
+
 def run_column2(name, values, ctx, only=None):
     rec = Rec(ctx, only)
     n = len(values)
     cells = column_cells(values, 'A')
     base = 'C15/%s/%s' % (name, colkey(values))
     batch = Batch(cells)
-    crits = FRAC_CRITERIA if name == 'column-frac' else DIGIT_CRITERIA
+    crits = {'column-frac': FRAC_CRITERIA, 'column-digit': DIGIT_CRITERIA,
+             'column-words': WORD_CRITERIA}[name]
     for crit in crits:
         try:
             want = ref.countif(values, crit)
@@ -478,7 +486,8 @@ def plan(tier):
             shards.append({'fam': 'column', 'n': n, 'lo': lo,
                            'hi': min(total, lo + 12)})
     for name, alpha in (('column-frac', FRAC_ALPHA),
-                        ('column-digit', DIGIT_ALPHA)):
+                        ('column-digit', DIGIT_ALPHA),
+                        ('column-words', WORD_ALPHA)):
         for n in range(1, (4 if thorough else 3) + 1):
             total = len(alpha) ** n
             for lo in range(0, total, 40):
@@ -514,8 +523,9 @@ def run_shard(shard, ctx):
             ctx.sample({'column': list(word(ALPHA6, shard['n'],
                                             shard['hi'] - 1)),
                         'formula': '=COUNTIF(A1:A%d,">=-3")' % shard['n']})
-    elif fam in ('column-frac', 'column-digit'):
-        alpha = FRAC_ALPHA if fam == 'column-frac' else DIGIT_ALPHA
+    elif fam in ('column-frac', 'column-digit', 'column-words'):
+        alpha = {'column-frac': FRAC_ALPHA, 'column-digit': DIGIT_ALPHA,
+                 'column-words': WORD_ALPHA}[fam]
         for idx in range(shard['lo'], shard['hi']):
             run_column2(fam, word(alpha, shard['n'], idx), ctx)
         if shard['lo'] == 0:
@@ -548,7 +558,7 @@ def replay(inputs, ctx):
     only = inputs['key']
     if fam == 'column':
         run_column(tuple(inputs['values']), ctx, only)
-    elif fam in ('column-frac', 'column-digit'):
+    elif fam in ('column-frac', 'column-digit', 'column-words'):
         run_column2(fam, tuple(inputs['values']), ctx, only)
     elif fam == 'pair':
         run_pair(tuple(inputs['a']), tuple(inputs['b']), inputs['mode'], ctx,
